@@ -357,6 +357,20 @@ def _grid_chain(tier, rng):
             yield {"y": rng.randrange(1974, 2017), "m": rng.randrange(1, 13), "d": rng.randrange(1, 28)}
 
 
+_FINALS = {}
+
+
+def _finals_ut1_utc():
+    """{MJD: UT1-UTC} transcribed from columns 8-15 and 59-68 of tests/data/pole/finals.all"""
+    if not _FINALS:
+        for line in open("/repo/tests/data/pole/finals.all", encoding="ascii").read().splitlines():
+            try:
+                _FINALS[int(float(line[7:15]))] = float(line[58:68])
+            except ValueError:
+                break
+    return _FINALS
+
+
 @contract("C02", "chains.native", funcs=[f"{I80}:sideral", f"{I80}:precesion", f"{I80}:nutation", f"{I10}:precesion_nutation", f"{I10}:sideral"], grid=_grid_chain, level="bounded")
 def _(c):
     """bounded: the IAU-1980 chain (ITRF-PEF-TOD-MOD-EME2000) and the IAU-2010 chain (ITRF-TIRF-CIRF-GCRF-EME2000) agree within 0.1 arcsec + the frame bias;
@@ -367,7 +381,10 @@ def _(c):
     from beyond.frames import iau1980, iau2010
     from contracts.eopcfg import use_eop
     use_eop(real=True)
-    date = Date(c.integer("y"), c.integer("m"), c.integer("d"), 3, 4, 5)
+    # (in the morning or in the afternoon of the UTC day: the Earth orientation parameters are those tabulated for that day at either time)
+    hour = 3 if (c.integer("y") + c.integer("d")) % 2 else 15
+    date = Date(c.integer("y"), c.integer("m"), c.integer("d"), hour, 4, 5)
+    utc_date = date
     lab = [None, "TAI", "TT", "GPS", "UT1"][c.integer("label")]   # the same instant handed over under another scale label: the angles are those of the instant
     if lab is not None:
         date = date.change_scale(lab)
@@ -378,7 +395,10 @@ def _(c):
     ang = np.linalg.norm(via80 - via10) / np.linalg.norm(via80)
     c.ensure("chains_agree_0.1_arcsec", bool(ang <= math.radians(0.1 / 3600)))
     # independent GMST-82 (Aoki 1982) and ERA (Capitaine 2000)
-    ut1 = date.change_scale("UT1")
+    # UT1 = UTC + (UT1-UTC printed on the line of that UTC day in finals.all, read here independently of the library)
+    ut1_utc = _finals_ut1_utc().get(int(utc_date.mjd))
+    c.require(ut1_utc is not None)
+    ut1 = types.SimpleNamespace(jd=utc_date.jd + ut1_utc / 86400.0)
     Tu = (ut1.jd - 2451545.0) / 36525.0
     gmst = (67310.54841 + (876600 * 3600 + 8640184.812866) * Tu + 0.093104 * Tu ** 2 - 6.2e-6 * Tu ** 3) % 86400 / 240.0
     c.ensure("gmst82_independent", abs((iau1980._sideral(date) - gmst + 180) % 360 - 180) <= 1e-7)
